@@ -347,7 +347,13 @@ class Driver:
         try:
             outcome = getattr(self, "op_" + kind)(*op[1:])
         except Exception as e:  # a raising handler is not C16's business: count it, stop the sequence (state unknown)
-            self.cov.hit("raised", f"{kind}:{type(e).__name__}")
+            import traceback
+
+            fr = traceback.extract_tb(e.__traceback__)[-1]
+            site = f"{kind}:{type(e).__name__}@{fr.filename.rsplit('/', 1)[-1]}:{fr.name}"
+            self.cov.hit("raised", site)
+            self.cov.add("raised_examples", {"site": site, "ops": [list(map(str, o)) for o in self.log]} if site not in self.cov.d.get("raised", {}) or
+                         self.cov.d["raised"][site] <= 1 else {"site": site})
             self.log[-1].append(f"raised {type(e).__name__}: {e}"[:160])
             self.crashed = True
             self.stop = True
